@@ -5,6 +5,7 @@ import (
 	"github.com/Azbesciak/RealDecisionMaker/lib/model"
 	"github.com/Azbesciak/RealDecisionMaker/lib/model/reference-criterion"
 	"github.com/Azbesciak/RealDecisionMaker/lib/utils"
+	"math"
 )
 
 //go:generate easytags $GOFILE json:camel
@@ -168,6 +169,8 @@ func (c *criteriaToMix) mix(
 			panic(fmt.Errorf("criterion value for '%s' not found for alternative '%s'", c.c2, a))
 		}
 		value := c1Value*props.MixingRatio + c2Value*(1-props.MixingRatio)
+		// a mixed value lies between its components; the rounded sum of the two products may not (0.8*0.3 + 0.8*0.7 < 0.8)
+		value = math.Max(math.Min(c1Value, c2Value), math.Min(math.Max(c1Value, c2Value), value))
 		resultValues[a] = value
 	}
 	return &mixResult{
